@@ -102,6 +102,9 @@ def compare_logs(la, lb, ignore_prefix=()):
 
 def table_equal(ta, tb):
     a, b = np.asarray(ta[:]), np.asarray(tb[:])
+    if a.size == b.size and a.shape != b.shape and a.size == max(a.shape) == max(b.shape):
+        # a table written from a dict of columns is stored as (N, 1): same cells
+        a, b = a.ravel(), b.ravel()
     if a.dtype.names != b.dtype.names or a.shape != b.shape:
         return {"names_a": a.dtype.names, "names_b": b.dtype.names,
                 "shape_a": list(a.shape), "shape_b": list(b.shape)}
